@@ -19,3 +19,10 @@ def run(rep, facts, tier):
     cfg = Cfg(facts["R"])
     GD.taint_rule(rep, cfg)
     GD.public_input(rep, cfg)
+    # a proof exists for an input only if the honest witness satisfies the circuit: the prover hint must be the native answer and the hint block
+    # must admit it in every row an honest prover can be in (C13's HINT and honest GUARD rows) - the statically visible precondition of clause 3
+    from . import c13
+    from .common import import_rules
+    nh = import_rules(rep, c13, facts, tier, "HONEST", pred=lambda k: k.startswith("HINT/") or k.startswith("HONEST/"))
+    rep.rules += ["HONEST (C13's HINT and honest guard-row instances)"]
+    rep.floor("honest_witness_instances", nh, 6)
